@@ -238,6 +238,12 @@ pub fn triplet_bytes(ri: u8, dx: i32, dy: i32) -> Vec<u8> {
 // ------------------------------------------------------------------------------------------------
 // outline model
 
+/// A difference of two int16 coordinates (-65535..=65535) as the int16 value a `glyf` table stores for it: TrueType
+/// coordinate arithmetic is modulo 2^16, a step of +40000 is stored as -25536 and the reader's wrapping sum restores it.
+pub fn wrap16(d: i32) -> i32 {
+    (d + 32768).rem_euclid(65536) - 32768
+}
+
 #[derive(Clone, Copy, Debug, PartialEq, Eq)]
 pub struct Pt {
     pub x: i16,
@@ -451,9 +457,9 @@ pub fn glyph_to_ttf(g: &Glyph) -> Vec<u8> {
                 if i == 0 && *overlap {
                     f |= 0x40;
                 }
-                let dx = p.x as i32 - px;
-                let dy = p.y as i32 - py;
-                assert!((-32768..=32767).contains(&dx) && (-32768..=32767).contains(&dy), "model glyph has a delta that TrueType cannot store");
+                // steps wider than int16 are stored modulo 2^16
+                let dx = wrap16(p.x as i32 - px);
+                let dy = wrap16(p.y as i32 - py);
                 if dx == 0 {
                     f |= 0x10;
                 } else if dx.abs() <= 255 {
@@ -590,6 +596,7 @@ pub fn parse_glyph(d: &[u8]) -> Result<Glyph, String> {
             } else if f & 0x10 == 0 {
                 x += r.i16().ok_or_else(|| e("truncated x"))? as i32;
             }
+            x = wrap16(x);
             xs.push(x);
         }
         let mut pts = Vec::with_capacity(npts);
@@ -601,10 +608,9 @@ pub fn parse_glyph(d: &[u8]) -> Result<Glyph, String> {
             } else if f & 0x20 == 0 {
                 y += r.i16().ok_or_else(|| e("truncated y"))? as i32;
             }
-            if xs[i] < -32768 || xs[i] > 32767 || y < -32768 || y > 32767 {
-                return Err(format!("point {} at ({}, {}) is outside the int16 range", i, xs[i], y));
-            }
-            pts.push(Pt { x: xs[i] as i16, y: y as i16, on: f & 1 != 0 });
+            // the running sums are int16 sums (modulo 2^16)
+            y = wrap16(y);
+            pts.push(Pt { x: wrap16(xs[i]) as i16, y: y as i16, on: f & 1 != 0 });
         }
         let mut contours = Vec::new();
         let mut s = 0;
@@ -673,11 +679,15 @@ pub struct GlyfChoices {
     pub index_format: u16,
     /// write optionFlags bit 0 and the overlapSimpleBitmap (forced on when a glyph has the overlap bit)
     pub overlap_bitmap: bool,
+    /// a step between consecutive points that does not fit int16 (magnitude above 32767, e.g. x = -20000 -> 20000) is
+    /// written false: as the true difference (+40000, 16-bit rows 124..128), true: as the wrapped int16 delta the
+    /// `glyf` table holds (-25536); a decoder that sums modulo 2^16 restores the same point from either
+    pub wrap_deltas: bool,
 }
 
 impl GlyfChoices {
     pub fn plain(index_format: u16) -> GlyfChoices {
-        GlyfChoices { rows: Vec::new(), default_row: 0, explicit_bbox: Vec::new(), u255: U255Mode::Shortest, index_format, overlap_bitmap: false }
+        GlyfChoices { rows: Vec::new(), default_row: 0, explicit_bbox: Vec::new(), u255: U255Mode::Shortest, index_format, overlap_bitmap: false, wrap_deltas: false }
     }
 }
 
@@ -708,9 +718,11 @@ pub fn transform_glyf(glyphs: &[Glyph], ch: &GlyfChoices) -> (Vec<u8>, Vec<bool>
                 }
                 let (mut px, mut py) = (0i32, 0i32);
                 for (pi, p) in contours.iter().flatten().enumerate() {
-                    let dx = p.x as i32 - px;
-                    let dy = p.y as i32 - py;
-                    assert!((-32768..=32767).contains(&dx) && (-32768..=32767).contains(&dy), "model glyph has a delta that TrueType cannot store");
+                    let (mut dx, mut dy) = (p.x as i32 - px, p.y as i32 - py);
+                    if ch.wrap_deltas {
+                        dx = wrap16(dx);
+                        dy = wrap16(dy);
+                    }
                     let ri = match ch.rows.iter().find(|e| e.0 == gi && e.1 == pi) {
                         Some(e) => e.2,
                         None => {
@@ -1013,6 +1025,17 @@ mod tests {
         assert_eq!(triplet_bytes(23, 3, 16), vec![0x2f]);
         assert_eq!(triplet_bytes(121, 0x123, -0x456), vec![0x12, 0x34, 0x56]);
         assert_eq!(admissible_rows(0, 0), vec![0, 1, 10, 11, 120, 121, 122, 123, 124, 125, 126, 127]);
+    }
+
+    #[test]
+    fn wide_steps_wrap() {
+        assert_eq!(wrap16(40000), -25536);
+        assert_eq!(wrap16(-65535), 1);
+        assert_eq!(wrap16(32768), -32768);
+        assert_eq!(wrap16(-32768), -32768);
+        let g = Glyph::simple(vec![vec![Pt { x: -20000, y: 32767, on: true }, Pt { x: 20000, y: -32768, on: false }, Pt { x: -32768, y: 32767, on: true }]], vec![]);
+        assert_eq!(parse_glyph(&glyph_to_ttf(&g)), Ok(g));
+        assert_eq!(admissible_rows(40000, -65535), vec![125]);
     }
 
     #[test]
